@@ -449,6 +449,41 @@ func genC04(g *G) {
 					}
 				}
 			}
+			// Drain (every second bulk case): Delete alone, in ascending, descending, random or outside-in key
+			// order, down to a few entries or to nothing.  Only a long run of Deletes after growth takes the tree
+			// under the map through its delete-side whole-tree rebuild (size below an eighth of the high-water
+			// mark); the contents are observed after every Delete.
+			if c%6 == 0 {
+				id := x.ids[0]
+				leave := g.Intn(4)
+				dorder := g.Intn(4)
+				for j := 0; len(x.keys[id]) > leave; j++ {
+					ks := x.keys[id]
+					var k int
+					switch dorder {
+					case 0:
+						k = ks[0]
+					case 1:
+						k = ks[len(ks)-1]
+					case 2:
+						k = ks[g.Intn(len(ks))]
+					default:
+						if j%2 == 0 {
+							k = ks[0]
+						} else {
+							k = ks[len(ks)-1]
+						}
+					}
+					x.del(0, k)
+				}
+				if len(x.keys[id]) > 0 {
+					x.emit("first 0 0")
+					x.its[0], x.old[0] = id, false
+					for j := 0; j <= len(x.keys[id]); j++ {
+						x.emit("itnext 0")
+					}
+				}
+			}
 			nops = len(x.ops) + 10 + g.Intn(g.Scale(40, 120))
 		}
 		for len(x.ops) < nops {
